@@ -130,8 +130,8 @@ class C14Property:
                  "timeouts": []}
         fails, notes = [], []
         for entry in entries:
-            for k in range(n_per_class):
-                r = pools.instance_of(entry, rng, 1)
+            insts = [pools.instance_of(entry, rng, 1) for _ in range(n_per_class)] + pools.function_attr_instances(entry, rng, 0)
+            for r in insts:
                 stats["instances"] += 1
                 nested = any(m1.is_unevaluated_class(type(a)) for a in r.args)
                 chk.count(("oracle", entry.key, str(r)) if nested else None)
@@ -142,6 +142,16 @@ class C14Property:
                 others = corr.variants_for_eq(entry, pools, rng, r)
                 stats["equality_pairs"] += len(others)
                 fails += oracle.check_equality(entry, r, others, notes)
+                n_pairs = 0
+                for kind, o in others:
+                    callable_changed = any(callable(getattr(o, f.name)) and getattr(o, f.name) is not getattr(r, f.name)
+                                           for f in entry.attr_fields)
+                    if kind.startswith("attr changed") and entry.implement_doit and callable_changed and n_pairs < 6:
+                        n_pairs += 1
+                        try:
+                            fails += corr.with_cap(CAP_S, oracle.check_pair_commute, r, o, kind, pools, rng, ctx, stats)
+                        except corr._Timeout:  # noqa: SLF001
+                            stats["timeouts"].append("pair: " + str(o)[:120])
             fails += oracle.check_template_globals(entry, pools, rng, ctx)
             if entry.numpy_printable:
                 try:
@@ -227,7 +237,10 @@ MANIFEST = {
         "Trusted: Lean kernel + Mathlib (axioms propext, Classical.choice, Quot.sound); the class-table extractor and the SymPy<->S-expression "
         "converter (a wrong table makes the correspondence disagree: every table class is instantiated with random nested arguments and "
         "attributes and run through the real __new__/xreplace/subs/evaluate/==/hash/func(*args)/pickle and the model, results compared with == "
-        "after rebuilding with the real constructors, unfold results modulo SymPy's non-confluent arithmetic canonicalisation: expand, then "
+        "after rebuilding with the real constructors; non-SymPy attribute values include None, strings, classes and FUNCTIONS (closures of one "
+        "factory = distinct objects with one qualified name, lambdas, a module-level function; a function is an opaque token with the identity "
+        "of the Python object), with one instance per function value of every callable attribute in every run and the substitution laws "
+        "re-checked on the second of two instances that differ only in such an attribute (SymPy caches subs by equality); unfold results modulo SymPy's non-confluent arithmetic canonicalisation: expand, then "
         "numeric evaluation). SymPy's behaviour on built-in nodes, lambdify, numpy and pickle are executed, not modelled. New classes appear "
         "in the table automatically (introspection); new helper classes are listed but only the known ones are instantiated."
     ),
